@@ -4,6 +4,8 @@ static struct { const char *name; int (*fn)(FILE *, FILE *); } cmds[] = {
     {"openenum", cmd_openenum},
     {"writehist", cmd_writehist},
     {"compint", cmd_compint},
+    {"hash", cmd_hash},
+    {"readenum", cmd_readenum},
     {NULL, NULL}
 };
 
